@@ -711,6 +711,7 @@ impl Distinfo {
 //@ end
 //@ extract src/distinfo.rs : impl Distinfo fn as_bytes
 //@ rewrite D6.imap_values D6.osstring_as_bytes
+    #[verifier::loop_isolation(true)]
     pub fn as_bytes(&self) -> (r: Vec<u8>)
         requires self.wf()
         ensures r@ == print_distinfo(self.dv())
